@@ -25,6 +25,10 @@ class ElementProgram:
     ) -> None:
         if tokenizer is None:
             tokenizer = self.tokenizers[mode]
+
+        # The text that token positions refer to (line endings may
+        # have been converted by the caller).
+        self.source = source
         tokens = tokenizer(source, filename)
         parser = ElementParser(
             tokens, self.DEFAULT_NAMESPACES, self.restricted_namespace
